@@ -119,6 +119,9 @@ Proof. intros s _. destruct x; exact I. Qed.
 Lemma simS_impl {A B} (R R' : A -> B -> Prop) env m x : (forall a b, R a b -> R' a b) -> simS R env m x -> simS R' env m x.
 Proof. intros H Hm s Hs. eapply rel_out_impl; [exact H|apply Hm, Hs]. Qed.
 
+Lemma simC_impl {A B} (R R' : A -> B -> Prop) env v m x : (forall a b, R a b -> R' a b) -> simC R env v m x -> simC R' env v m x.
+Proof. intros H Hm HG Hcur s Hs Hv. eapply rel_out_impl; [exact H|apply Hm; assumption]. Qed.
+
 Lemma simS_bind {A B A' B'} (R : A -> A' -> Prop) (R' : B -> B' -> Prop) env m x (f : A -> M B) (g : A' -> sres B') :
   kshape m -> simS R env m x -> (forall a b, R a b -> simS R' env (f a) (g b)) -> simS R' env (bind m f) (sbind x g).
 Proof.
@@ -726,13 +729,16 @@ Proof.
   - cbn [List.length Nat.eqb]. apply Bool.andb_false_r.
 Qed.
 
+Definition spec_flag (q : query) : bool :=
+  match rev q with p :: _ => is_filter_part p | [] => false end || match q with [p] => part_is_variable p | _ => false end.
+
 Lemma empty_on_expr_eq q : q <> [] ->
   match last q QThis with
   | QFilter _ _ | QMapKeyFilter _ _ _ => true
   | rest => part_is_variable rest && Nat.eqb (List.length q) 1
-  end = (match rev q with p :: _ => is_filter_part p | [] => false end || match q with [p] => part_is_variable p | _ => false end).
+  end = spec_flag q.
 Proof.
-  intros Hq. rewrite <- (last_is_filter q Hq), <- (bare_variable q Hq). destruct (last q QThis); reflexivity.
+  intros Hq. unfold spec_flag. rewrite <- (last_is_filter q Hq), <- (bare_variable q Hq). destruct (last q QThis); reflexivity.
 Qed.
 
 Definition Rst (a : qres * status) (b : status) : Prop := snd a = b.
@@ -875,6 +881,287 @@ Proof.
     + unfold bind, lift. destruct (spec_binary re o neg svals rv); cbn; exact I.
 Qed.
 
+
+(* unary tests *)
+Lemma unary_tail_refines env (lhs : list qres) (svals : list sval) (q : query) (o : cmp_op) (neg pre : bool) (custom : option string) (all : bool) :
+  is_unary o = true -> q <> [] -> RQ lhs svals ->
+  simS (fun p st => fst p = st) env
+    (res <- (match last q QThis, q with
+             | _, [] => panicM P_lhs_query_empty
+             | last_part, _ =>
+               let empty_on_expr :=
+                 match last_part with
+                 | QFilter _ _ | QMapKeyFilter _ _ _ => true
+                 | rest => part_is_variable rest && Nat.eqb (List.length q) 1
+                 end in
+               if empty_on_expr && cmp_op_eqb (fst (o, neg)) OEmpty then
+                 match lhs with
+                 | _ :: _ =>
+                     res <- mapM (fun each =>
+                              let '(result, st) :=
+                                match each with
+                                | QLiteral x | QResolved x =>
+                                    (QResolved x, if (if snd (o, neg) then negb (is_null x) else is_null x) then PASS else FAIL)
+                                | QUnResolved u => (QUnResolved u, if snd (o, neg) then FAIL else PASS)
+                                end in
+                              let st := if pre then invert_status st else st in
+                              _ <- leaf (KClauseValueCheck
+                                           (match st with
+                                            | PASS => CSuccess
+                                            | _ => CUnary (o, neg) result false custom FAIL
+                                            end)) ;;
+                              ret (result, st)) lhs ;;
+                     ret (QueryValueResult res)
+                 | [] =>
+                     let result := negb (snd (o, neg)) in
+                     let result := if pre then negb result else result in
+                     if result then
+                       _ <- leaf (KClauseValueCheck CSuccess) ;; ret (EmptyQueryResult PASS)
+                     else
+                       _ <- leaf (KClauseValueCheck (CNoValueForEmptyCheck custom)) ;; ret (EmptyQueryResult FAIL)
+                 end
+               else
+                 match lhs with
+                 | [] => ret (EmptyQueryResult SKIP)
+                 | _ =>
+                     match unary_base (fst (o, neg)) with
+                     | None => panicM P_unary_on_binary_op
+                     | Some base =>
+                         res <- mapM (fun each =>
+                                  b <- lift (unary_op (o, neg) pre base each) ;;
+                                  _ <- leaf (KClauseValueCheck
+                                               (if b then CSuccess else CUnary (o, neg) each false custom FAIL)) ;;
+                                  ret (each, if b then PASS else FAIL)) lhs ;;
+                         ret (QueryValueResult res)
+                     end
+                 end
+             end) ;;
+     access_tail all res)
+    (if cmp_op_eqb o OEmpty && spec_flag q then
+       match svals with
+       | [] => SOk (if xorb (negb neg) pre then PASS else FAIL)
+       | _ => SOk (aggregate all (map (fun x => let b := match x with SMiss => true | SV _ v => is_null v end in polarity b neg pre) svals))
+       end
+     else
+       match svals with
+       | [] => SOk SKIP
+       | _ => sts <~ smap (fun x => b <~ unary_value o x ;; SOk (polarity b neg pre)) svals ;; SOk (aggregate all sts)
+       end).
+Proof.
+  intros Hu Hq [Hrel HG]. cbv zeta. cbn [fst snd].
+  destruct q as [|p0 rest]; [contradiction|]. clear Hq. set (q := p0 :: rest) in *.
+  assert (Hflag := empty_on_expr_eq q ltac:(subst q; discriminate)).
+  intros s Hs.
+  match goal with |- rel_out _ (bind ?m _ s) _ => 
+    assert (Em : m = (if spec_flag q && cmp_op_eqb o OEmpty
+      then match lhs with
+           | _ :: _ =>
+               res <- mapM (fun each =>
+                        let '(result, st) :=
+                          match each with
+                          | QLiteral x | QResolved x => (QResolved x, if (if neg then negb (is_null x) else is_null x) then PASS else FAIL)
+                          | QUnResolved u => (QUnResolved u, if neg then FAIL else PASS)
+                          end in
+                        let st := if pre then invert_status st else st in
+                        _ <- leaf (KClauseValueCheck (match st with PASS => CSuccess | _ => CUnary (o, neg) result false custom FAIL end)) ;;
+                        ret (result, st)) lhs ;;
+               ret (QueryValueResult res)
+           | [] =>
+               if (if pre then negb (negb neg) else negb neg) then _ <- leaf (KClauseValueCheck CSuccess) ;; ret (EmptyQueryResult PASS)
+               else _ <- leaf (KClauseValueCheck (CNoValueForEmptyCheck custom)) ;; ret (EmptyQueryResult FAIL)
+           end
+      else match lhs with
+           | [] => ret (EmptyQueryResult SKIP)
+           | _ =>
+               match unary_base o with
+               | None => panicM P_unary_on_binary_op
+               | Some base =>
+                   res <- mapM (fun each =>
+                            b <- lift (unary_op (o, neg) pre base each) ;;
+                            _ <- leaf (KClauseValueCheck (if b then CSuccess else CUnary (o, neg) each false custom FAIL)) ;;
+                            ret (each, if b then PASS else FAIL)) lhs ;;
+                   ret (QueryValueResult res)
+               end
+           end))
+  end.
+  { rewrite <- Hflag. subst q. destruct (last (p0 :: rest) QThis); reflexivity. }
+  rewrite Em. clear Em Hflag.
+  rewrite (Bool.andb_comm (cmp_op_eqb o OEmpty)).
+  destruct (spec_flag q && cmp_op_eqb o OEmpty).
+  - (* the emptiness of the result set *)
+    destruct Hrel as [|a b lhs svals Hab Hrel].
+    + destruct neg, pre; cbn [negb xorb]; (eapply pure_bind_out; [eapply pure_bind; [apply pure_leaf|apply pure_ret]|]); cbn; reflexivity.
+    + set (lhs0 := a :: lhs) in *. set (svals0 := b :: svals) in *.
+      assert (Hrel0 : Forall2 rel_q lhs0 svals0) by (constructor; assumption).
+      change (match svals0 with [] => SOk (if xorb (negb neg) pre then PASS else FAIL) | _ :: _ => ?X end) with X.
+      change (match lhs0 with _ :: _ => ?X | [] => _ end) with X.
+      match goal with |- rel_out _ _ (SOk (aggregate all (map ?Gf svals0))) =>
+        assert (Esp : SOk (aggregate all (map Gf svals0)) = (sts <~ smap (fun x => SOk (Gf x)) svals0 ;; SOk (aggregate all sts))) by (rewrite smap_pure; reflexivity);
+        rewrite Esp; clear Esp
+      end.
+      apply bind_assoc_out.
+      refine (simS_bind (Forall2 Rst) _ env _ _ _ _ _ _ _ s Hs).
+      * apply keeps_mapM; [exact ss_refl|exact ss_trans|]. intros x. destruct x; cbv zeta; kk.
+      * refine (simS_mapM rel_q Rst env _ _ lhs0 svals0 Hrel0 _ _); [intros x _; destruct x; cbv zeta; kk|].
+        intros x y _ Hxy s0 Hs0.
+        destruct x as [v|v|u], y as [[|] v'|]; cbn in Hxy; try contradiction; subst; cbv zeta;
+          (eapply pure_out; [eapply pure_bind; [apply pure_leaf|apply pure_ret]|]); unfold Rst; cbn [snd];
+          unfold polarity; destruct neg, pre; try destruct (is_null v'); reflexivity.
+      * intros res sts Hrs. apply simS_ret_l. apply access_tail_values. rewrite (map_snd_Rst _ _ Hrs). apply sv_refl.
+  - destruct Hrel as [|a b lhs svals Hab Hrel]; [cbn; reflexivity|].
+    set (lhs0 := a :: lhs) in *. set (svals0 := b :: svals) in *.
+    assert (Hrel0 : Forall2 rel_q lhs0 svals0) by (constructor; assumption).
+    change (match svals0 with [] => SOk SKIP | _ :: _ => ?X end) with X.
+    change (match lhs0 with [] => _ | _ :: _ => ?X end) with X.
+    destruct (is_unary_base o Hu) as [base Hb]. rewrite Hb.
+    apply bind_assoc_out.
+    refine (simS_bind (Forall2 Rst) _ env _ _ _ _ _ _ _ s Hs).
+    + apply keeps_mapM; [exact ss_refl|exact ss_trans|]. intros x. kk.
+    + refine (simS_mapM rel_q Rst env _ _ lhs0 svals0 Hrel0 _ _); [intros x _; kk|].
+      intros x y _ Hxy.
+      eapply (simS_bind (fun b b' => b = xorb (xorb b' neg) pre)); [kk| |].
+      * apply simS_lift. pose proof (unary_refines o base x y Hb Hxy) as Hu1. unfold unary_op. cbn [snd].
+        destruct (unary_value o y) as [b'| |]; [| |exact I]; destruct (base x) as [b0| | | |]; cbn in Hu1 |- *; try contradiction; auto.
+        subst. destruct b', neg, pre; reflexivity.
+      * intros b0 b' ->. apply simS_leaf_l. apply simS_ret. unfold Rst, polarity. cbn [snd]. reflexivity.
+    + intros res sts Hrs. apply simS_ret_l. apply access_tail_values. rewrite (map_snd_Rst _ _ Hrs). apply sv_refl.
+Qed.
+
+(* the implementation evaluates the right-hand side first, the documented semantics the left-hand side *)
+Lemma swap_out {A A' B B' C D D'} (RR : A -> A' -> Prop) (RL : B -> B' -> Prop) (R' : D -> D' -> Prop) env v
+      (mR : M A) xR (mL : M B) xL (f : A -> B -> M C) (g : C -> M D) (k' : B' -> A' -> sres D') :
+  kshape mR -> kshape mL -> simC RR env v mR xR -> simC RL env v mL xL ->
+  (forall a a' b b', RR a a' -> RL b b' -> simC R' env v (c <- f a b ;; g c) (k' b' a')) ->
+  simC R' env v (c <- (a <- mR ;; b <- mL ;; f a b) ;; g c) (b' <~ xL ;; a' <~ xR ;; k' b' a').
+Proof.
+  intros KR KL HR HL Hk HG Hcur s Hs Hv. specialize (HR HG Hcur s Hs Hv).
+  apply bind_assoc_out. unfold bind at 1.
+  destruct (mR s) as [[[a r1] s1]| | | |] eqn:ER.
+  - apply KR in ER. unfold same_shape in ER.
+    assert (Hs1 : rel_env (shape s1) env) by (rewrite ER; exact Hs).
+    assert (Hv1 : root_of (frames s1) = Some v).
+    { rewrite <- root_of_shape. fold (shape s1). rewrite ER. unfold shape. rewrite root_of_shape. exact Hv. }
+    specialize (HL HG Hcur s1 Hs1 Hv1). apply rel_out_wrap. apply bind_assoc_out. unfold bind at 1.
+    destruct (mL s1) as [[[b r2] s2]| | | |] eqn:EL.
+    + apply KL in EL. unfold same_shape in EL.
+      destruct xL as [b'| |]; cbn in HL |- *; [|contradiction|exact I].
+      destruct xR as [a'| |]; cbn in HR |- *; [|contradiction|exact I].
+      apply rel_out_wrap. apply (Hk a a' b b' HR HL HG Hcur); [rewrite EL; exact Hs1|].
+      rewrite <- root_of_shape. fold (shape s2). rewrite EL. unfold shape. rewrite root_of_shape. exact Hv1.
+    + destruct xL as [b'| |]; cbn in HL |- *; [contradiction|exact I|exact I].
+    + destruct xL as [b'| |]; cbn; [destruct xR as [a'| |]; cbn; [destruct (k' b' a')| |]| |]; exact I.
+    + destruct xL as [b'| |]; cbn; [destruct xR as [a'| |]; cbn; [destruct (k' b' a')| |]| |]; exact I.
+    + destruct xL as [b'| |]; cbn; [destruct xR as [a'| |]; cbn; [destruct (k' b' a')| |]| |]; exact I.
+  - destruct xL as [b'| |]; cbn; [|exact I|exact I]. destruct xR as [a'| |]; cbn in HR |- *; [contradiction|exact I|exact I].
+  - destruct xL as [b'| |]; cbn; [destruct xR as [a'| |]; cbn; [destruct (k' b' a')| |]| |]; exact I.
+  - destruct xL as [b'| |]; cbn; [destruct xR as [a'| |]; cbn; [destruct (k' b' a')| |]| |]; exact I.
+  - destruct xL as [b'| |]; cbn; [destruct xR as [a'| |]; cbn; [destruct (k' b' a')| |]| |]; exact I.
+Qed.
+
+Theorem access_refines env v g : simC eq env v (access_clause_body re r g) (access_s sr env g).
+Proof.
+  destruct g as [aq [o neg] w custom pre]. intros HG Hcur s Hs Hv.
+  unfold access_clause_body, Spec.access_s. cbn [fst snd]. apply wrap_fst_out.
+  change (fun res : evaluation_result => match res with
+            | EmptyQueryResult st => ret (st, aq_all aq)
+            | QueryValueResult l => if has_status SKIP l then panicM P_skip_in_values
+                                    else ret (if aq_all aq then if has_status FAIL l then FAIL else PASS else if has_status PASS l then PASS else FAIL, negb (aq_all aq))
+            end) with (access_tail (aq_all aq)).
+  destruct (is_unary o) eqn:Hu.
+  - (* unary *)
+    unfold unary_operation. apply bind_assoc_out.
+    refine (simC_bind RQ _ env v _ _ _ _ (ks_ctxq _) (ctx_query_refines env v _) _ HG Hcur s Hs Hv).
+    intros lhs svals Hrq.
+    assert (Hq : aq_query aq = [] \/ aq_query aq <> []) by (destruct (aq_query aq); [now left|right; discriminate]).
+    destruct Hq as [Hq|Hq].
+    + (* an empty query: the implementation indexes past the end *)
+      rewrite Hq. apply simS_C. intros s0 Hs0. cbn. destruct (cmp_op_eqb o OEmpty && _); destruct svals; try destruct (smap _ _); cbn; exact I.
+    + apply simS_C.
+      change (match rev (aq_query aq) with p :: _ => is_filter_part p | [] => false end
+              || match aq_query aq with [p] => part_is_variable p | _ => false end) with (spec_flag (aq_query aq)).
+      apply (unary_tail_refines env lhs svals (aq_query aq) o neg pre custom (aq_all aq) Hu Hq Hrq).
+  - (* binary: against a literal, or a variable bound to a literal *)
+    set (c' := if pre then (o, negb neg) else (o, neg)).
+    assert (Ec' : c' = (o, xorb neg pre)) by (subst c'; destruct pre, neg; reflexivity).
+    set (BODY := fun (lhs : list sval) (rhs : pv) =>
+                   match lhs with
+                   | [] => SOk SKIP
+                   | [SV true l] => sts <~ check_literal re o (xorb neg pre) l rhs ;; SOk (aggregate (aq_all aq) sts)
+                   | _ => sts <~ sflat (fun x => check_value re o (xorb neg pre) x rhs) lhs ;; SOk (aggregate (aq_all aq) sts)
+                   end).
+    set (F := fun (rhs lhs : list qres) =>
+                results <- lift (cmp_compare re c' lhs rhs) ;;
+                match results with
+                | ESkip => ret (EmptyQueryResult SKIP)
+                | EResult l =>
+                    res <- concatMapM (fun e => mapM (fun t => let '(cc, v0, st) := t in _ <- leaf (KClauseValueCheck cc) ;; ret (v0, st))
+                                                     (report_binary c' custom e)) l ;;
+                    ret (QueryValueResult res)
+                end).
+    assert (Hlit : forall rhs lhs svals rv, rhs = [QLiteral rv] -> RQ lhs svals ->
+                   simC (fun p st => fst p = st) env v (res <- F rhs lhs ;; access_tail (aq_all aq) res) (BODY svals rv)).
+    { intros rhs lhs svals rv -> Hrq. apply simS_C. subst F BODY. cbv beta. rewrite Ec'.
+      apply (binary_tail_refines env lhs svals o (xorb neg pre) rv custom (aq_all aq) Hu Hrq). }
+    assert (Hgen : forall (mR : M (list qres)) xR (k' : list sval -> list sval -> sres status),
+               kshape mR -> simC (Forall2 rel_q) env v mR xR ->
+               (forall rhs vals lhs svals, Forall2 rel_q rhs vals -> RQ lhs svals -> simC (fun p st => fst p = st) env v (res <- F rhs lhs ;; access_tail (aq_all aq) res) (k' svals vals)) ->
+               rel_out (fun p st => fst p = st)
+                 ((res <- (rhs <- mR ;; binary_operation re r (aq_query aq) rhs c' custom) ;; access_tail (aq_all aq) res) s)
+                 (lhs <~ query_s sr env (aq_query aq) ;; vals <~ xR ;; k' lhs vals)).
+    { intros mR xR k' KR HR Hk'.
+      refine (swap_out (Forall2 rel_q) RQ _ env v mR xR (ctx_query r (aq_query aq)) (query_s sr env (aq_query aq)) F (access_tail (aq_all aq)) k'
+                KR (ks_ctxq _) HR (ctx_query_refines env v _) _ HG Hcur s Hs Hv).
+      intros a a' b b' Ha Hb. apply Hk'; assumption. }
+    set (K' := fun (svals vals : list sval) => match vals with [SV true lit] => BODY svals lit | _ => SOut end).
+    assert (HK' : forall rhs vals lhs svals, Forall2 rel_q rhs vals -> RQ lhs svals ->
+                  simC (fun p st => fst p = st) env v (res <- F rhs lhs ;; access_tail (aq_all aq) res) (K' svals vals)).
+    { intros rhs vals lhs svals Hr Hl. subst K'. cbv beta.
+      destruct vals as [|[[|] lit|] [|y2 vals2]]; try apply simC_SOut.
+      inversion Hr as [|x y l1 l2 Hxy Hr2 E1 E2]; subst. inversion Hr2; subst.
+      destruct x; cbn in Hxy; try contradiction. subst. apply Hlit; [reflexivity|exact Hl]. }
+    destruct w as [[rv|[qa ma]|ps fn]|].
+    + (* a literal *)
+      change (rel_out (fun p st => fst p = st)
+                ((res <- (rhs <- ret [QLiteral rv] ;; binary_operation re r (aq_query aq) rhs c' custom) ;; access_tail (aq_all aq) res) s)
+                (lhs <~ query_s sr env (aq_query aq) ;; vals <~ SOk [SV true rv] ;; K' lhs vals)).
+      apply (Hgen (ret [QLiteral rv]) (SOk [SV true rv]) K'); [kk| |exact HK'].
+      apply simS_C, simS_ret. repeat constructor.
+    + (* a query: covered when it is a bare variable bound to a literal *)
+      destruct qa as [|[|k| | | | |] [|p2 rest2]];
+        try (match goal with |- context [ctx_query r ?Q] =>
+               change (rel_out (fun p st => fst p = st)
+                ((res <- (rhs <- ctx_query r Q ;; binary_operation re r (aq_query aq) rhs c' custom) ;; access_tail (aq_all aq) res) s)
+                (lhs <~ query_s sr env (aq_query aq) ;; vals <~ SOut ;; K' lhs vals));
+               apply (Hgen (ctx_query r Q) SOut K'); [kk|apply simC_SOut|exact HK'] end).
+      cbn [aq_query]. destruct (key_variable k) as [name|] eqn:Ekv.
+      * assert (Erhs : forall (Kf : pv -> sres status),
+                  (rhs <~ (vals <~ resolve sr env name ;; match vals with [SV true lit] => SOk lit | _ => SOut end) ;; Kf rhs)
+                  = (vals <~ query_s sr env [QKey k] ;; match vals with [SV true lit] => Kf lit | _ => SOut end)).
+        { intros Kf. unfold Spec.query_s. rewrite Ekv. destruct (resolve sr env name) as [vals| |]; cbn; try reflexivity.
+          destruct vals as [|[[|] lit|] [|y2 vals2]]; reflexivity. }
+        assert (Espec : (lhs <~ query_s sr env (aq_query aq) ;;
+                         rhs <~ (vals <~ resolve sr env name ;; match vals with [SV true lit] => SOk lit | _ => SOut end) ;; BODY lhs rhs)
+                        = (lhs <~ query_s sr env (aq_query aq) ;; vals <~ query_s sr env [QKey k] ;; K' lhs vals)).
+        { destruct (query_s sr env (aq_query aq)) as [lhs| |]; cbn [sbind]; try reflexivity. rewrite (Erhs (BODY lhs)). reflexivity. }
+        change (rel_out (fun p st => fst p = st)
+                ((res <- (rhs <- ctx_query r [QKey k] ;; binary_operation re r (aq_query aq) rhs c' custom) ;; access_tail (aq_all aq) res) s)
+                (lhs <~ query_s sr env (aq_query aq) ;;
+                 rhs <~ (vals <~ resolve sr env name ;; match vals with [SV true lit] => SOk lit | _ => SOut end) ;; BODY lhs rhs)).
+        rewrite Espec.
+        apply (Hgen (ctx_query r [QKey k]) (query_s sr env [QKey k]) K'); [kk| |exact HK'].
+        eapply simC_impl; [|apply ctx_query_refines]. intros a b [Hab _]. exact Hab.
+      * change (rel_out (fun p st => fst p = st)
+                ((res <- (rhs <- ctx_query r [QKey k] ;; binary_operation re r (aq_query aq) rhs c' custom) ;; access_tail (aq_all aq) res) s)
+                (lhs <~ query_s sr env (aq_query aq) ;; vals <~ SOut ;; K' lhs vals)).
+        apply (Hgen (ctx_query r [QKey k]) SOut K'); [kk|apply simC_SOut|exact HK'].
+    + (* a function call: not covered *)
+      change (rel_out (fun p st => fst p = st)
+                ((res <- (rhs <- ev_fn r fn ps ;; binary_operation re r (aq_query aq) rhs c' custom) ;; access_tail (aq_all aq) res) s)
+                (lhs <~ query_s sr env (aq_query aq) ;; vals <~ SOut ;; K' lhs vals)).
+      apply (Hgen (ev_fn r fn ps) SOut K'); [apply (proj2 (proj2 (proj2 (proj2 Hks))))|apply simC_SOut|exact HK'].
+    + (* no right-hand side *)
+      unfold bind, failM. destruct (query_s sr env (aq_query aq)); cbn; exact I.
+Qed.
 
 End Bodies.
 
